@@ -1,6 +1,6 @@
 ----------------------------- MODULE MCFsmGen -----------------------------
 EXTENDS FsmGen
-Cfg(passive, hold, peer) == [passive |-> passive, hold |-> hold, peer |-> peer, maxpfx |-> 1, nbit |-> FALSE, retry |-> 4]
+Cfg(passive, hold, peer) == [passive |-> passive, hold |-> hold, peer |-> peer, maxpfx |-> 1, nbit |-> FALSE, retry |-> 3]
 CfgsPassive == {Cfg(TRUE, 9, "lo"), Cfg(TRUE, 3, "lo")}
 CfgsActive == {Cfg(FALSE, 9, "lo"), Cfg(FALSE, 9, "hi"), Cfg(FALSE, 9, "eqlo"), Cfg(FALSE, 9, "eqhi"), Cfg(FALSE, 3, "hi")}
 =============================================================================
